@@ -973,6 +973,49 @@ def generate(repo):
     g.item('magang_key', 'prysm/polynomials/zernike.py:zernikes_to_magnitude_angle_nmkey', find_loop, build_key,
            f'def magangKey (n_ m_ : Int) : Int × Int := {M}.magangKey n_ m_')
 
+    # the rule by which zernikes_to_magnitude_angle turns a name into its dict key (whole name, or name without the last word)
+    def find_strip():
+        fn = get_def(zk, 'zernikes_to_magnitude_angle')
+        loops = [st for st in fn.body if isinstance(st, ast.For)]
+        if len(loops) != 1:
+            raise Untranslatable('zernikes_to_magnitude_angle: one loop over the (n, |m|) classes expected')
+        return loops[0]
+
+    def build_strip():
+        lp = find_strip()
+        body = [st for st in lp.body]
+        src = [ast.unparse(st) for st in body]
+        ifs = [st for st in body if isinstance(st, ast.If)]
+        if len(ifs) != 1 or len(body) != 4:
+            raise Untranslatable('shape of the key loop')
+        if src[0] != 'name = nm_to_name(*k)' or src[1] not in ("split = name.split(' ')",) or not src[3].startswith('d2[k2] = '):
+            raise Untranslatable(f'shape of the key loop: {src[0]} / {src[1]} / {src[3]}')
+        iff = ifs[0]
+        if [ast.unparse(x) for x in iff.body] != ['k2 = name'] or [ast.unparse(x) for x in iff.orelse] != ["k2 = ' '.join(split[:-1])"]:
+            raise Untranslatable('branches of the key rule')
+
+        def cond(e):
+            if isinstance(e, ast.BoolOp):
+                op = ' && ' if isinstance(e.op, ast.And) else ' || '
+                return '(' + op.join(cond(v) for v in e.values) + ')'
+            if isinstance(e, ast.UnaryOp) and isinstance(e.op, ast.Not):
+                return f'(!{cond(e.operand)})'
+            if isinstance(e, ast.Compare) and len(e.ops) == 1:
+                l, o, r = e.left, e.ops[0], e.comparators[0]
+                if ast.unparse(l) == 'len(split)' and isinstance(r, ast.Constant) and type(r.value) is int:
+                    sym = {ast.Lt: '<', ast.LtE: '≤', ast.Gt: '>', ast.GtE: '≥', ast.Eq: '=', ast.NotEq: '≠'}.get(type(o))
+                    if sym:
+                        return f'decide (words_ {sym} {_ilit(r.value)})'
+                if isinstance(l, ast.Constant) and l.value == 'Tilt' and ast.unparse(r) == 'name':
+                    if isinstance(o, ast.In):
+                        return 'tilt_'
+                    if isinstance(o, ast.NotIn):
+                        return '(!tilt_)'
+            raise Untranslatable(f'condition {ast.unparse(e)}')
+        return f'def keepsWholeName (words_ : Int) (tilt_ : Bool) : Bool :=\n  {cond(iff.test)}\n'
+    g.item('magang_name_rule', 'prysm/polynomials/zernike.py:zernikes_to_magnitude_angle', find_strip, build_strip,
+           'def keepsWholeName (words_ : Int) (tilt_ : Bool) : Bool := decide (words_ < 3) && !tilt_')
+
     def table(pyname, lean):
         def find():
             hits = [st for st in zk.body if isinstance(st, ast.Assign) and len(st.targets) == 1
